@@ -116,6 +116,15 @@ class _NoOps(ast.NodeTransformer):
         return node
 
 
+class _SwapIfElse(ast.NodeTransformer):
+    def visit_If(self, node):
+        self.generic_visit(node)
+        if node.orelse and not (len(node.orelse) == 1 and isinstance(node.orelse[0], ast.If)):
+            return ast.If(test=ast.UnaryOp(op=ast.Not(), operand=node.test), body=node.orelse,
+                          orelse=node.body)
+        return node
+
+
 def _alpha_rename(tree):
     """Rename every local (non-parameter) variable of every function to <name>_q."""
     for fn in [n for n in ast.walk(tree) if isinstance(n, (ast.FunctionDef, ast.AsyncFunctionDef))]:
@@ -167,6 +176,8 @@ def neutral_variants(text):
         out.append(('insert-noops', ast.unparse(t) + '\n'))
         t = ast.fix_missing_locations(_ReturnTemp().visit(ast.parse(text)))
         out.append(('return-temporaries', ast.unparse(t) + '\n'))
+        t = ast.fix_missing_locations(_SwapIfElse().visit(ast.parse(text)))
+        out.append(('swap-if-else', ast.unparse(t) + '\n'))
     except Exception as e:   # pragma: no cover
         out.append(('rewrite-error', None))
     return out
